@@ -356,6 +356,8 @@ pub fn run_shard(spec: &ShardSpec, cur: Option<&str>, trace: Option<(u64, String
         ("e1" | "e2", "map", "u32") => run_generic::<MapWorld<u32>>(spec, cur, trace),
         ("e1" | "e2", "map", "tk") => run_generic::<MapWorld<Tk>>(spec, cur, trace),
         ("e1" | "e2", "map", "zst") => run_generic::<MapWorld<()>>(spec, cur, trace),
+        ("e1" | "e2", "map", "zd") => run_generic::<MapWorld<crate::elem::Zd>>(spec, cur, trace),
+        ("e1" | "e2", "set", "zd") => run_generic::<SetWorld<crate::elem::Zd>>(spec, cur, trace),
         ("e1" | "e2", "set", "u32") => run_generic::<SetWorld<u32>>(spec, cur, trace),
         ("e1" | "e2", "set", "tk") => run_generic::<SetWorld<Tk>>(spec, cur, trace),
         ("e1" | "e2", "set", "zst") => run_generic::<SetWorld<()>>(spec, cur, trace),
@@ -370,6 +372,8 @@ pub fn replay_shard(spec: &ShardSpec, hist: &[Op], quiet: bool) -> Result<(), (u
         ("map", "u32") => engine::replay_verbose::<MapWorld<u32>>(&cfg, hist, quiet),
         ("map", "tk") => engine::replay_verbose::<MapWorld<Tk>>(&cfg, hist, quiet),
         ("map", "zst") => engine::replay_verbose::<MapWorld<()>>(&cfg, hist, quiet),
+        ("map", "zd") => engine::replay_verbose::<MapWorld<crate::elem::Zd>>(&cfg, hist, quiet),
+        ("set", "zd") => engine::replay_verbose::<SetWorld<crate::elem::Zd>>(&cfg, hist, quiet),
         ("set", "u32") => engine::replay_verbose::<SetWorld<u32>>(&cfg, hist, quiet),
         ("set", "tk") => engine::replay_verbose::<SetWorld<Tk>>(&cfg, hist, quiet),
         ("set", "zst") => engine::replay_verbose::<SetWorld<()>>(&cfg, hist, quiet),
@@ -383,6 +387,8 @@ pub fn transcript_shard(spec: &ShardSpec, hist: &[Op]) -> String {
         ("map", "u32") => engine::transcript_of::<MapWorld<u32>>(&cfg, hist),
         ("map", "tk") => engine::transcript_of::<MapWorld<Tk>>(&cfg, hist),
         ("map", "zst") => engine::transcript_of::<MapWorld<()>>(&cfg, hist),
+        ("map", "zd") => engine::transcript_of::<MapWorld<crate::elem::Zd>>(&cfg, hist),
+        ("set", "zd") => engine::transcript_of::<SetWorld<crate::elem::Zd>>(&cfg, hist),
         ("set", "u32") => engine::transcript_of::<SetWorld<u32>>(&cfg, hist),
         ("set", "tk") => engine::transcript_of::<SetWorld<Tk>>(&cfg, hist),
         ("set", "zst") => engine::transcript_of::<SetWorld<()>>(&cfg, hist),
